@@ -98,9 +98,9 @@ def trace_cfg(dev=()):
 def _quiescent(s):
     """Mirror of GameTrace!Quiescent for Deviations = {}: neither the coroutine nor a player-add pipeline can move."""
     pc = s['pc']
-    adv = s['nreq'] == 0 and (pc == 'boot' or (pc == 'dlv' and not s['held']) or (pc == 'live' and s['flag']) or
+    adv = s['nreq'] == 0 and s['ncb'] == 0 and (pc == 'boot' or (pc == 'dlv' and not s['held']) or (pc == 'live' and s['flag']) or
                               (pc == 'waitplayer' and (s['alo'] or (s['ending'] and s['np'] == 0))))
-    busy = s['nreq'] > 0 or any(x in ('will', 'posted', 'added') for x in s['padd']) or \
+    busy = s['nreq'] > 0 or s['ncb'] > 0 or any(x in ('will', 'posted', 'added') for x in s['padd']) or \
         any(x == 'dlv' and not h for x, h in zip(s['padd'], s['pheld']))
     return not adv and pc != 'posted' and not busy
 
@@ -392,6 +392,15 @@ class GameRun:
             for i, s in enumerate(self.sched):
                 if i in self.consumed or s['op'] != 'req':
                     continue
+                # a request meant for the handler of an event that has not happened yet: play on (drain) until it does
+                at = s.get('at', -1)
+                for _ in range(12):
+                    g = self.m.game
+                    if at < 0 or at in self.consumed or i in self.consumed or g is None or g.balls_in_play <= 0:
+                        break
+                    self.top({'kind': 'drain', 'n': int(g.balls_in_play)})
+                if i in self.consumed:
+                    continue
                 self.consumed.add(i)
                 self.top(s)
             self.rest()
@@ -439,28 +448,30 @@ def _compact(sched):
     return out
 
 
+def _crash_signature(tr):
+    what = [e for e in tr['ev'] if e['op'] == 'crash'][0]['what']
+    if "'int' object is not iterable" in what:
+        return ('C06:crash:ball_starting-before-player_added',
+                'a player whose player_adding queue event is still pending gets his turn: ModeController._ball_starting '
+                'iterates player.restart_modes_on_next_ball which is only initialised on player_added -> TypeError, the '
+                'game coroutine dies in ball_starting (%s)' % what)
+    return 'C06:crash:%s' % what.split('(')[0], 'execution crashed: %s' % what
+
+
 def _signature(tr, info):
     ev = tr['ev']
-    crash = [e for e in ev if e['op'] == 'crash']
-    if crash:
-        what = crash[0]['what']
-        if "'int' object is not iterable" in what:
-            return ('C06:crash:ball_starting-before-player_added',
-                    'a player whose player_adding queue event is still pending gets his turn: ModeController._ball_starting '
-                    'iterates player.restart_modes_on_next_ball which is only initialised on player_added -> TypeError, the '
-                    'game coroutine dies in ball_starting (%s)' % what)
-        return 'C06:crash:%s' % what.split('(')[0], 'execution crashed: %s' % what
-    line = info.get('line')
+    line = info.get('line') or 0
     fe = info.get('failing_event') or {}
     pe = info.get('prev_event') or {}
     if line and any(e.get('stale') for e in ev[:line]):
         return ('C06:stale-player_adding-leaks-into-next-game',
                 'a player_adding queue event of an ended game that is released during the next game makes the old Player '
                 'object game.player of the new game (Game._player_adding_complete); first unexplained line %s: %s' % (line, fe))
-    name = fe.get('name', fe.get('kind', fe.get('op', 'end')))
-    prev = pe.get('name', pe.get('kind', pe.get('op', 'start')))
+    name = fe.get('name') or fe.get('kind') or fe.get('op', 'end')
+    prev = pe.get('name') or pe.get('kind') or pe.get('op', 'start')
     return ('C06:%s:%s-after-%s' % (fe.get('op', 'end'), name, prev),
-            'game lifecycle execution not explained by the Game spec at line %s: %s (previous line %s)' % (line, fe, pe))
+            'game lifecycle execution not explained by the Game spec (all known deviations allowed) at line %s: %s '
+            '(previous line %s)' % (line, fe, pe))
 
 
 def run(ctx):
@@ -470,8 +481,9 @@ def run(ctx):
         f.write(mc_module())
     # 1. the statement holds in the reference model (Deviations = {})
     runs = [('safety', dict(props=SAFETY, ops=3 if ctx.quick else 4, aw=1, games=1 if ctx.quick else 2)),
+            ('safety, two games', dict(props=SAFETY, ops=2, aw=1, games=2)),
             ('safety, 3 players', dict(props=SAFETY, configs='MCConfigs3', pmax=3, ops=3, aw=1)),
-            ('liveness under weak fairness', dict(spec='LiveSpec', props=SAFETY + LIVENESS, ops=2, aw=1))]
+            ('liveness under weak fairness', dict(spec='LiveSpec', props=SAFETY + LIVENESS, ops=2 if ctx.quick else 3, aw=1))]
     for n, (label, kw) in enumerate(runs):
         name = 'MC%d.cfg' % n
         with open(os.path.join(wd, name), 'w') as f:
@@ -486,8 +498,8 @@ def run(ctx):
                                  'GameEndCompletes (liveness)', 'AfterEnd', 'FreshGame', 'NewGamePossible',
                                  'trace: event arguments, observations, top-level quiescence']
     # 2. schedules: random walks of the model, disturbances starting after QuietUntil lifecycle events
-    quiets = [0, 8, 14, 22, 34, 50] if ctx.quick else [0, 5, 8, 11, 14, 18, 22, 28, 34, 42, 50, 64, 80]
-    per = 60 if ctx.quick else 320
+    quiets = [0, 10, 22, 36, 52] if ctx.quick else [0, 5, 8, 11, 14, 18, 22, 28, 34, 42, 50, 64, 80]
+    per = 64 if ctx.quick else 320
     jobs = []
     by_id = {(c['bpg'], c['maxp'], c['known']): c for c in CFGS}
     for qi, q in enumerate(quiets):
@@ -504,45 +516,65 @@ def run(ctx):
     jobs = hm + jobs
     ctx.log('%d schedules (%d hand-written)' % (len(jobs), len(hm)))
     traces = harness.pmap(exec_schedule, jobs, chunk=6, item_timeout=120)
-    # 3. every execution must be a behaviour of the model
+    # 3. every execution must be a behaviour of the model (a crashed execution: up to the crash)
+    crashed = {i for i, t in enumerate(traces) if any(e['op'] == 'crash' for e in t['ev'])}
+    vtraces = [dict(t, ev=t['ev'][:[e['op'] for e in t['ev']].index('crash')]) if i in crashed else t
+               for i, t in enumerate(traces)]
     with open(wd + '/Trace.cfg', 'w') as f:
         f.write(trace_cfg())
-    v = tlc.validate_traces(wd, 'GameTrace', 'Trace.cfg', traces, workers=8)
+    v = tlc.validate_traces(wd, 'GameTrace', 'Trace.cfg', vtraces, workers=8)
     ctx.add_trace_verdict('GameTrace', v, len(traces))
     ctx.sample({'kind': 'game-trace', 'cfg': traces[len(hm)]['cfg'], 'schedule': _compact(jobs[len(hm)][2])[:12],
                 'trace': traces[len(hm)]['ev'][:8]})
     ctx.coverage['lines'] = sum(len(t['ev']) for t in traces)
     ctx.coverage['requests_by_context'] = _ctx_stats(traces)
-    # 4. rejected executions: explained by the code-as-is deviations? (smallest set first)
-    left = [i for i in sorted(v.rejected) if not any(e['op'] == 'crash' for e in traces[i]['ev'])]
+
+    def report(i, sig, what, info):
+        ctx.violation(sig, what + ' [schedule: %s]' % '; '.join(_compact(jobs[i][2])[:14]),
+                      {'cid': jobs[i][1]['id'], 'sched': jobs[i][2], 'trace': traces[i], 'info': info, 'tb': traces[i].get('_tb')})
+
+    for i in sorted(crashed):
+        report(i, *_crash_signature(traces[i]), info={})
+    # 4. rejected executions: explained by the code-as-is deviations? (smallest set first; what is left is diagnosed
+    #    against the model with all deviations allowed)
+    left = sorted(v.rejected)
     explained = {}
-    subsets = [(d,) for d in DEVIATIONS] + list(itertools.combinations(DEVIATIONS, 2)) + [tuple(DEVIATIONS)]
-    for k, sub in enumerate(subsets):
-        if not left:
-            break
-        name = 'TraceDev%d.cfg' % k
+    last = {}
+    npass = [0]
+
+    def attempt(sub, ids, diagnose=False):
+        npass[0] += 1
+        name = 'TraceDev%d.cfg' % npass[0]
         with open(os.path.join(wd, name), 'w') as f:
             f.write(trace_cfg(sub))
-        v2 = tlc.validate_traces(wd, 'GameTrace', name, [traces[i] for i in left], workers=8, diagnose=False)
+        v2 = tlc.validate_traces(wd, 'GameTrace', name, [vtraces[i] for i in ids], workers=8, diagnose=diagnose)
         ctx.add_trace_verdict('GameTrace(Deviations={%s})' % ','.join(sub), v2, 0)
-        for a in sorted(v2.accepted):
-            explained[left[a]] = sub
-        left = [i for a, i in enumerate(left) if a not in v2.accepted]
+        return [ids[a] for a in sorted(v2.accepted)], {ids[a]: info for a, info in v2.rejected.items()}
+
+    for d in DEVIATIONS:
+        if left:
+            acc, _ = attempt((d,), left)
+            explained.update({i: (d,) for i in acc})
+            left = [i for i in left if i not in explained]
+    if left:
+        multi, last = attempt(tuple(DEVIATIONS), left, diagnose=True)
+        left = [i for i in left if i not in multi]
+        for size in (2, 3, 4):
+            for sub in sorted(itertools.combinations(DEVIATIONS, size), key=lambda c: c != ('AddRace', 'FirstPlayerOvertaken')):
+                if multi:
+                    acc, _ = attempt(sub, multi)
+                    explained.update({i: sub for i in acc})
+                    multi = [i for i in multi if i not in explained]
+        explained.update({i: tuple(DEVIATIONS) for i in multi})
     for i, sub in sorted(explained.items()):
         for d in sub:
-            ctx.violation('C06:' + d, DEV_WHAT[d] + ' [schedule: %s]' % '; '.join(_compact(jobs[i][2])[:14]),
-                          {'cid': jobs[i][1]['id'], 'sched': jobs[i][2], 'trace': traces[i], 'info': v.rejected[i]})
-    for i, info in sorted(v.rejected.items()):
-        if i in explained:
+            report(i, 'C06:' + d, DEV_WHAT[d], v.rejected[i])
+    diagnosed = [i for i in left if last.get(i, {}).get('line') is not None]
+    for i in left:
+        info = last.get(i) or v.rejected[i]
+        if info.get('line') is None and diagnosed:
             continue
-        crashed = any(e['op'] == 'crash' for e in traces[i]['ev'])
-        if info.get('line') is None and not crashed:
-            ctx.notes.append('rejected trace %d was not diagnosed' % i)
-            info = dict(info, line=0)
-        sig, what = _signature(traces[i], info)
-        ctx.violation(sig, what + ' [schedule: %s]' % '; '.join(_compact(jobs[i][2])[:14]),
-                      {'cid': jobs[i][1]['id'], 'sched': jobs[i][2], 'trace': traces[i], 'info': info,
-                       'tb': traces[i].get('_tb')})
+        report(i, *_signature(vtraces[i], info), info=info)
     ctx.assumptions += [
         'real game + attract modes, machine without ball devices (playfield.add_ball replaced by a no-op, num_balls_known '
         'set per configuration); drains are ball_drain relay events',
